@@ -51,7 +51,7 @@ fn main() {
             let block_seed = rng.next();
             let mut crng = Rng(block_seed);
             let n = crng.range(tlo, thi) as usize;
-            let opts = GenOpts { invalid: crng.chance(1, 2), destroy: crng.chance(1, 2), create: crng.chance(1, 2), beneficiary_roles: true, shared_callers: crng.chance(1, 2), chain: false, cb: false };
+            let opts = GenOpts { invalid: crng.chance(1, 2), destroy: crng.chance(1, 2), create: crng.chance(1, 2), beneficiary_roles: true, shared_callers: crng.chance(1, 2), chain: false, cb: false, multi: false };
             let (world, block) = gen_block(&mut crng, n, opts);
             let mut orc = oracle(&world.db, &block);
             // half of the blocks run on a database with a persistent fault on a key in-order
@@ -118,6 +118,7 @@ fn main() {
             shared_callers: optsv.contains("shared") && crng.chance(1, 2),
             chain: optsv.contains("chain"),
             cb: optsv.contains("cb"),
+            multi: optsv.contains("multi"),
         };
         let (mut world, block) = gen_block(&mut crng, n, opts);
         world.db.points = dbpoints && !free;
